@@ -15,6 +15,8 @@ PYPROJECTS = [
     # switch preview off)
     "[tool.black]\npreview = true\nunstable = false\n",
     "[tool.black]\nline-length = 70\nrequired-version = \"%s\"\n" % __import__("black").__version__.split(".")[0],
+    # line lengths of OTHER tools in the same file are not black's
+    "[tool.black]\nskip-magic-trailing-comma = false\n\n[tool.ruff]\nline-length = 120\n\n[tool.isort]\nline_length = 110\n\n[tool.pylint.format]\nmax-line-length = 115\n",
 ]
 
 
@@ -174,6 +176,11 @@ WS_LAYOUTS = [
      "from inline_snapshot import snapshot\n\n\ndef get():\n    return {'name': 'n' * 12, 'text': 'long text ' * 9}\n\n\ndef test_a():\n    assert get() == snapshot({'name': 'nnnnnnnnnnnn', 'text': 'short'})\n"),
     ("required-version given as the major version",
      {"pyproject.toml": "[tool.black]\nline-length = 60\nrequired-version = \"%s\"\n" % __import__("black").__version__.split(".")[0]}, "tests/test_w.py", "[tool.black]\nline-length = 60\n"),
+    ("line lengths of other tools (ruff, isort, pylint) next to a [tool.black] table without line-length: black's default applies",
+     {"pyproject.toml": "[tool.black]\nskip-magic-trailing-comma = false\n\n[tool.ruff]\nline-length = 120\n\n[tool.isort]\nline_length = 110\n\n[tool.pylint.format]\nmax-line-length = 115\n"},
+     "tests/test_w.py", "[tool.black]\nskip-magic-trailing-comma = false\n",
+     "from inline_snapshot import snapshot\n\n\ndef test_a():\n    assert [111111, 222222, 333333, 444444, 555555] == snapshot([111111, 222222])\n\n\n"
+     "def test_b():\n    assert {'alpha': 'value one', 'beta': 'value two'} == snapshot({'alpha': 'x'})\n"),
     ("nested project with its own black options", {"pyproject.toml": "[tool.black]\nline-length = 120\n", "sub/pyproject.toml": "[tool.black]\nline-length = 50\n"}, "sub/test_w.py",
      "[tool.black]\nline-length = 50\n"),
 ]
